@@ -3,3 +3,9 @@ import Uflow.Gen.Consts
 import Uflow.Gen.CrcTable
 import Uflow.Model.Crc
 import Uflow.Model.Codec
+import Uflow.Model.Basic
+import Uflow.Model.PSend
+import Uflow.Model.PRecv
+import Uflow.Model.Rate
+import Uflow.Model.FrameQ
+import Uflow.Model.HalfConn
